@@ -162,7 +162,11 @@ def run(ctx):
             else:
                 g = rng.choice(GAINS + (WILD if wild else []))
                 o = rng.choice(GAINS + (WILD if wild else []))
-                if rng.random() < 0.3 and isinstance(g, float) and type(g) is float:
+                if rng.random() < 0.2:
+                    g = rng.choice([1.0, 1, np.float32(1.0), np.float64(1.0)])     # the identity gain, offset only
+                if rng.random() < 0.15:
+                    o = rng.choice([0.0, 0, -0.0])                                  # gain only
+                if rng.random() < 0.3 and isinstance(g, float) and type(g) is float and g != 1.0:
                     g = g * rng.uniform(-4, 4)
                 mode = LinearScaleMode(g, o)
             cls = ComplexWaveform if complex_w else AnalogWaveform
@@ -281,6 +285,25 @@ def run(ctx):
                 ctx.count("model-compared", "bit-exact")
             else:
                 ctx.count("model-compared", "skipped (outside the normal range)")
+    # windows given as narrow NumPy integer scalars on waveforms longer than those types can count
+    for cls, dtype in ((AnalogWaveform, np.int16), (ComplexWaveform, np.complex64)):
+        for n_samples in (250, 300):
+            raw = (np.arange(n_samples) % 100).astype(dtype)
+            w = cls.from_array_1d(raw, dtype, scale_mode=LinearScaleMode(2.0, 1.0))
+            full = w.get_scaled_data()
+            for a, b in ((200, 100), (200, 50), (200, 200), (100, 120), (70, 70), (255, 1), (127, 100), (0, 250)):
+                for T in (np.uint8, np.int8, np.int16, np.uint16, np.int64):
+                    info = np.iinfo(T)
+                    if not (info.min <= a <= info.max and info.min <= b <= info.max):
+                        continue
+                    r = outcome(lambda: w.get_scaled_data(start_index=T(a), sample_count=T(b)))
+                    fits = a + b <= n_samples
+                    ctx.case(("npint-window", cls.__name__, n_samples, a, b, T.__name__))
+                    okk = (r[0] == "ok" and len(r[1]) == b and np.array_equal(r[1], full[a:a + b])) if fits else (r[0] == "err" and r[1] == "ValueError")
+                    if not okk:
+                        ctx.violation(what="window given as NumPy integer scalars", cls=cls.__name__, samples=n_samples, start_index=repr(T(a)), sample_count=repr(T(b)),
+                                      observed=show(r)[:120] if r[0] != "ok" else f"{len(r[1])} samples", required=f"samples {a}..{a + b}" if fits else "ValueError")
+                        break
     res = ctx.model(lines)
     if res is not None:
         for q, want, got in zip(lines, expect, res):
